@@ -13,6 +13,8 @@
 //                            without hints, optionally suspend/resume the whole pool; monitors only.
 //   GATE <id> <k>            deterministic hand-shake scenarios using hook 1907/1902 as a gate.
 //   LOWP <id>                low-priority tasks staged, then the last processing unit is suspended (known finding).
+//   BLK <id> <seed>          tasks hinted to worker w are BLOCKED (latch / condition variable / sync_wait) when
+//                            suspend_processing_unit_direct(w) is issued; they are released only after the call returned.
 // Monitors (evaluated here, independent of the model): completion ledger (every task exactly once), no task
 // body on a processing unit whose suspend call has returned, calls return (watchdog), tasks complete on the
 // remaining workers without any resume, enqueue happens under the PU lock, hand-shake state sequence.
@@ -31,6 +33,8 @@
 #include <cstdio>
 #include <cstdlib>
 #include <fstream>
+#include <memory>
+#include <mutex>
 #include <sstream>
 #include <string>
 #include <thread>
@@ -539,6 +543,149 @@ static void run_lowp(std::string const& id)
     end_case();
 }
 
+// ---------------------------------------------------------------- BLK
+// "the calls themselves return", "tasks continue to complete on the remaining workers" when the processing unit that is
+// suspended owns BLOCKED tasks: K tasks hinted to worker w are suspended on a pika::latch / a condition variable / a
+// sync_wait of a sender running on the default pool (state `suspended`, no longer in any queue, but still owned by the
+// queue that created them) when suspend_processing_unit_direct(w) is issued from an OS thread or from a task of the
+// default pool.  Nobody releases them before the suspend call has returned, so the call must not wait for them.
+// Then ordinary tasks are submitted to the remaining workers (they must run without any resume), the blocked tasks are
+// released (they finish on the remaining workers, or on w after the resume) and w is resumed.
+#include <pika/condition_variable.hpp>
+#include <pika/latch.hpp>
+#include <pika/mutex.hpp>
+#include <pika/thread.hpp>
+struct BlkShared
+{
+    pika::latch latch{1};
+    pika::mutex m;
+    pika::condition_variable cv;
+    bool go = false;
+    std::atomic<bool> release{false};
+    std::atomic<int> started{0}, finished{0}, on_w{0};
+};
+static std::int64_t susp_count(int w)
+{
+    return TP->get_scheduler()->get_thread_count(pika::threads::detail::thread_schedule_state::suspended,
+        pika::execution::thread_priority::default_, w < 0 ? std::size_t(-1) : std::size_t(w), false);
+}
+template <typename F>
+static bool wait_cond(F f, int ms)
+{
+    auto t0 = std::chrono::steady_clock::now();
+    while (!f())
+    {
+        if (std::chrono::steady_clock::now() - t0 > std::chrono::milliseconds(ms)) return false;
+        std::this_thread::sleep_for(100us);
+    }
+    return true;
+}
+static void run_blk(std::string const& id, std::uint64_t seed)
+{
+    Rng r{seed * 0x9e3779b97f4a7c15ULL + 77};
+    int const w = r.below(NW);
+    int const K = 1 + r.below(4);
+    char const caller = r.below(2) ? 'o' : 'd';
+    std::string kinds;
+    bool have_s = false;
+    for (int i = 0; i < K; ++i)
+    {
+        char k = "llccs"[r.below(5)];
+        if (k == 's' && have_s) k = 'l';
+        have_s = have_s || k == 's';
+        kinds += k;
+    }
+    std::printf("IN BLK %s nw=%d el=%d st=%d seed=%llu w=%d K=%d kinds=%s caller=%c\n", id.c_str(), NW, int(EL), int(ST),
+        (unsigned long long) seed, w, K, kinds.c_str(), caller);
+    std::fflush(stdout);
+    // every call that does not return costs the 10 s bound: two such cases per run are evidence enough
+    static int blk_not_returned = 0;
+    if (blk_not_returned >= 2)
+    {
+        std::printf("OUT BLK %s setup=0 skipped=1\n", id.c_str());
+        std::fflush(stdout);
+        return;
+    }
+    begin_case("BLK", id, 90);
+    auto sh = std::make_shared<BlkShared>();
+    std::int64_t const base_all = susp_count(-1), base_w = susp_count(w);
+    for (int i = 0; i < K; ++i)
+    {
+        int tid = nsub.fetch_add(1);
+        char kind = kinds[i];
+        ex::execute(ex::with_hint(ex::thread_pool_scheduler{TP}, pika::execution::thread_schedule_hint(std::int16_t(w))), [sh, tid, kind, w] {
+            if (int(pika::get_local_worker_thread_num()) == w) ++sh->on_w;
+            ++sh->started;
+            if (kind == 'l') sh->latch.wait();
+            else if (kind == 'c')
+            {
+                std::unique_lock<pika::mutex> lk(sh->m);
+                sh->cv.wait(lk, [&] { return sh->go; });
+            }
+            else
+                tt::sync_wait(ex::schedule(ex::thread_pool_scheduler{DP}) | ex::then([sh] { while (!sh->release.load()) pika::this_thread::yield(); }));
+            if (pika::this_thread::get_pool() == TP)
+            {
+                std::size_t wn = pika::get_local_worker_thread_num();
+                if (wn < 64 && asleep[wn].load()) { ++viol_body_on_suspended; viol_detail_w = int(wn); }
+            }
+            ++sh->finished;
+            ran[tid].fetch_add(1);
+            ndone.fetch_add(1);
+        });
+    }
+    // all K tasks have started and are suspended (blocked), none can finish before the release below
+    bool setup = wait_cond([&] { return sh->started.load() == K; }, 8000) &&
+        wait_cond([&] { return susp_count(-1) >= base_all + K; }, 8000);
+    std::int64_t const susp_w = susp_count(w) - base_w;
+    int const on_w = sh->on_w.load();
+    // ---- the suspend call, issued while the tasks are blocked
+    std::atomic<bool> returned{false};
+    bool e = false;
+    auto t0 = std::chrono::steady_clock::now();
+    std::atomic<long> ret_us{-1};
+    std::thread s([&] {
+        e = do_op(std::string(1, caller) + "SP" + std::to_string(w));
+        ret_us = long(std::chrono::duration_cast<std::chrono::microseconds>(std::chrono::steady_clock::now() - t0).count());
+        returned = true;
+    });
+    bool const ret = wait_flag(returned, 10000);
+    if (!ret) ++blk_not_returned;
+    int const finished_at_return = sh->finished.load();
+    std::string const st_ret = states_str();
+    if (ret && !e) asleep[w] = true;
+    // ---- the remaining workers keep working without any resume
+    int others = 0;
+    int const done0 = ndone.load();
+    if (ret && !e)
+    {
+        for (int v = 0; v < NW; ++v)
+            if (v != w) { submit(v); ++others; }
+        submit(-1); ++others;
+    }
+    bool const others_done = wait_done(done0 + others, 10000);
+    // ---- release the blocked tasks (from a task of the default pool: every primitive is used from pika tasks only)
+    tt::sync_wait(ex::schedule(ex::thread_pool_scheduler{DP}) | ex::then([sh] {
+        sh->latch.count_down(1);
+        { std::unique_lock<pika::mutex> lk(sh->m); sh->go = true; }
+        sh->cv.notify_all();
+        sh->release = true;
+    }));
+    if (!ret) wait_flag(returned, 30000);
+    s.join();
+    bool const done_before_resume = wait_cond([&] { return sh->finished.load() == K; }, ret ? 1500 : 1);
+    int const fin_before_resume = sh->finished.load();
+    for (auto& x : asleep) x = false;
+    resume_all_quiet();
+    bool all = wait_done(nsub.load(), 20000);
+    std::printf("OUT BLK %s setup=%d K=%d started_on_w=%d suspended_owned_by_w=%lld returned=%d ret_us=%ld finished_at_return=%d states_at_return=%s err=%d "
+                "others=%d others_done=%d done_before_resume=%d fin_before_resume=%d all=%d %s body_on_suspended=%d w=%d\n",
+        id.c_str(), int(setup), K, on_w, (long long) susp_w, int(ret), ret_us.load(), finished_at_return, st_ret.c_str(), int(e), others, int(others_done),
+        int(done_before_resume), fin_before_resume, int(all), ledger_check().c_str(), viol_body_on_suspended.load(), w);
+    std::fflush(stdout);
+    end_case();
+}
+
 int main(int argc, char** argv)
 {
     if (argc < 7) { std::fprintf(stderr, "usage\n"); return 2; }
@@ -589,6 +736,7 @@ int main(int argc, char** argv)
             run_conc(f[1], std::strtoull(f[2].c_str(), nullptr, 10), std::atoi(f[3].c_str()), std::atoi(f[4].c_str()), std::atoi(f[5].c_str()));
         else if (f[0] == "GATE" && f.size() >= 3) run_gate(f[1], std::atoi(f[2].c_str()));
         else if (f[0] == "LOWP") run_lowp(f[1]);
+        else if (f[0] == "BLK" && f.size() >= 3) run_blk(f[1], std::strtoull(f[2].c_str(), nullptr, 10));
     }
     pika::verif::hook.store(nullptr);
     case_deadline_ms = now_ms() + 30000; cur_kind = "EXIT"; cur_id = "shutdown";
